@@ -44,11 +44,20 @@ pub fn check(t: &Trace<'_>, out: &mut CaseOut) -> bool {
     // ---- CONNECT
     let mut server_ka: Option<u16> = None;
     let mut expect_id = cfg.client_id.clone();
+    // clean start: asked for until a connect() has succeeded (see C05 for the one unspecified case)
+    let mut had_success = false;
+    let mut clean_start_unspecified = false;
     for ci in &t.conns {
         let c = &w.conns[ci.idx];
-        if let Some(CPacket::Connect { keepalive, props, client_id, will, username, password, .. }) = c.out.packets.first().map(|p| &p.pkt) {
+        if let Some(CPacket::Connect { keepalive, props, client_id, will, username, password, clean_start }) = c.out.packets.first().map(|p| &p.pkt) {
             out.count("connects_compared", 1);
             let mut bad: Vec<String> = Vec::new();
+            if !clean_start_unspecified && *clean_start == had_success {
+                bad.push(format!("clean-start flag {} although {} connect() has succeeded on this session", clean_start, if had_success { "a" } else { "no" }));
+            }
+            if !had_success && ci.idx > 0 {
+                out.count("connects_after_failed_handshakes_only", 1);
+            }
             // the application asked for `cfg.keepalive`; a Server Keep Alive overrides it for the
             // connection whose CONNACK carried it, not for the next CONNECT
             if *keepalive != cfg.keepalive {
@@ -84,6 +93,12 @@ pub fn check(t: &Trace<'_>, out: &mut CaseOut) -> bool {
                 let what = b.split(' ').next().unwrap_or("?").to_string();
                 out.violations.push(viol("C09", format!("C09/connect/{}", what), format!("conn {}: CONNECT {}", ci.idx, b)));
             }
+        }
+        if ci.established {
+            had_success = true;
+            clean_start_unspecified = false;
+        } else if ci.connack_consumed && matches!(ci.connack, Some((false, 0, _))) && had_success {
+            clean_start_unspecified = true;
         }
         if ci.connack_consumed {
             if let Some(k) = ci.ska {
